@@ -44,6 +44,22 @@ pub fn pool_key(kind: Kind, idx: usize) -> Option<(&'static str, bool)> {
     }
 }
 
+/// ECDSA nonces whose r starts with two zero bytes, and (key, nonce, message) triples whose s does
+/// (made once by `paseto-sim selftest grind-p384`): signature components with several leading zero
+/// bytes are a 2^-16 event per signature otherwise.
+pub const P384_SHORT_SIG_JSON: &str = include_str!("../../fixtures/p384_short_sig.json");
+
+pub fn p384_short_r_nonces() -> Vec<String> {
+    let v: serde_json::Value = serde_json::from_str(P384_SHORT_SIG_JSON).unwrap_or_default();
+    v["short_r_nonces"].as_array().map(|a| a.iter().filter_map(|x| x.as_str().map(|s| s.to_string())).collect()).unwrap_or_default()
+}
+
+/// (secret scalar hex, nonce hex, message)
+pub fn p384_short_s() -> Vec<(String, String, String)> {
+    let v: serde_json::Value = serde_json::from_str(P384_SHORT_SIG_JSON).unwrap_or_default();
+    v["short_s"].as_array().map(|a| a.iter().filter_map(|x| Some((x["d"].as_str()?.to_string(), x["k"].as_str()?.to_string(), x["msg"].as_str()?.to_string()))).collect()).unwrap_or_default()
+}
+
 /// Argon2id outputs for parallelism > 1 (and a few p = 1 rows that validate the table against
 /// libsodium at start-up), computed once with `openssl kdf ARGON2ID`: libsodium, the reference's
 /// provider for k2/k4, cannot compute lanes != 1.
